@@ -30,7 +30,29 @@ def consts(ctx):
                             bool(last or re.search(r":=\s*rawCerts\[0\]", body)), ""))
     ctx.add_const_raw("Definition verifyLeafLast : Z := %d." % last,
                       "certificate of the chain inspected by verifyRawCerts (1: the last, 0: the first = the TLS server certificate)")
+    consts_dial(ctx)
     ctx.notes.append("verifyLeafLast=%d (%s)" % (last, "REGRESSION: the last certificate of the chain is inspected; c18_verifier_inspects_first no longer checks" if last else "the first certificate of the chain is inspected: c18_verify_server_cert holds unconditionally"))
+
+
+def consts_dial(ctx):
+    # the source fact the dial model relies on: inside `if len(certHashes) > 0 {` dial() sets
+    # InsecureSkipVerify and installs, as VerifyPeerCertificate, a closure whose whole body is
+    # `return verifyRawCerts(rawCerts, certHashes)` (whatever the user's tls.Config carried), and
+    # dialWithScope refuses an address without certhashes.  1 = all of that is in the source text.
+    src = open(os.path.join(REPO, PKG, "transport.go"), errors="replace").read()
+    m = re.search(r"func \(t \*transport\) dial\(.*?\n}\n", src, re.S)
+    body = m.group(0) if m else ""
+    blk = re.search(r"if len\(certHashes\) > 0 \{(.*?)\n\t\}\n", body, re.S)
+    inner = re.sub(r"//[^\n]*", "", blk.group(1)) if blk else ""
+    inner = re.sub(r"\s+", " ", inner).strip()
+    want = ("tlsConf.InsecureSkipVerify = true tlsConf.VerifyPeerCertificate = func(rawCerts [][]byte, _ [][]*x509.Certificate) error "
+            "{ return verifyRawCerts(rawCerts, certHashes) }")
+    refuses0 = bool(re.search(r"if len\(certHashes\) == 0 \{\s*return nil, errors\.New\(", src))
+    ok = 1 if (inner == want and refuses0) else 0
+    ctx.add_const_raw("Definition dialInstallsVerifier : Z := %d." % ok,
+                      "dial(): the VerifyPeerCertificate installed for a certhash address is exactly verifyRawCerts(rawCerts, certHashes) (1) or something else (0)")
+    if not ok:
+        ctx.notes.append("dial() no longer installs verifyRawCerts unconditionally: found `%s`" % inner[:300])
 
 
 def harness(ctx, casefile, tier, seed):
@@ -72,6 +94,7 @@ CLAUSES = {
     6: "a SerializedCertHashes list read earlier lacks the certificate served in its current/following period",
     7: "two different certificates for one (key, start, end)",
     8: "a freshly started manager serves another certificate than the running one",
+    9: "an address given out earlier by this (not restarted) manager is no longer confirmed in the handshake during its current/following period",
     10: "verifier accepted an empty chain",
     11: "verifier accepted a certificate whose SHA-256 is not in the address",
     12: "verifier accepted bytes that are not a certificate",
@@ -130,12 +153,13 @@ def describe(t):
             ch, i = _chain(t, 1)
             hs, i = _plist(t, i)
             return {"kind": "verifyRawCerts", "chain": ch, "address_hashes(code,id)": hs, "result": RES.get(t[i], t[i])}
-        if t[0] == 3:
-            ch, i = _chain(t, 1)
+        if t[0] in (3, 6):
+            ch, i = _chain(t, 1 if t[0] == 3 else 2)
             ad, i = _plist(t, i)
             dec = t[i]
             sv, i = _plist(t, i + 1)
-            return {"kind": "dial", "server_chain": ch, "address_hashes(code,id)": ad, "server_list_decodes": dec,
+            return {"kind": "dial", "dialer": {0: "default transport", 1: "WithTLSClientConfig (no callback)", 2: "WithTLSClientConfig with a user VerifyPeerCertificate that accepts everything"}[t[1] if t[0] == 6 else 0],
+                    "server_chain": ch, "address_hashes(code,id)": ad, "server_list_decodes": dec,
                     "server_early_data(code,id)": sv,
                     "outcome": {0: "connected", 1: "refused by certificate check", 2: "refused in upgrade"}.get(t[i], t[i])}
     except (IndexError, TypeError):
@@ -176,10 +200,10 @@ def nontrivial(line):
 
 def key(tag, toks, d):
     # identity = clause + call site + the canonical minimal input class
-    if toks[0] in (2, 3) and len(d) >= 2:
+    if toks[0] in (2, 3, 6) and len(d) >= 2:
         cl = d[1]
-        site = "verifyRawCerts" if toks[0] == 2 else "dial"
-        if toks[1] >= 2:
+        site = "verifyRawCerts" if toks[0] == 2 else ("dial" if toks[0] == 3 else "dial(WithTLSClientConfig,cfg=%d)" % toks[1])
+        if toks[2 if toks[0] == 6 else 1] >= 2:
             # the judged certificate (first of the chain) is not the one the verifier inspected
             return "C18:%s:chain>=2:first-certificate:clause%d" % (site, cl)
         if cl == 13:
@@ -193,8 +217,12 @@ def key(tag, toks, d):
 
 
 def what(tag, toks, d):
-    if toks[0] in (2, 3) and len(d) >= 2:
-        return "%s: %s (diag %s)" % ("verifyRawCerts" if toks[0] == 2 else "Dial", CLAUSES.get(d[1], "?"), d)
+    if toks[0] in (2, 3, 6) and len(d) >= 2:
+        site = "verifyRawCerts" if toks[0] == 2 else ("Dial" if toks[0] == 3 else "Dial by a transport built with WithTLSClientConfig (cfg %d)" % toks[1])
+        return "%s: %s (diag %s)" % (site, CLAUSES.get(d[1], "?"), d)
+    if len(d) >= 5 and d[2] == 9:
+        return "%s timeline started at t0=%d: address learned at t=%d (sample %d) is not confirmed by the same manager's handshake list at t=%d (diag %s)" % (
+            "listener (real handshakes)" if toks[0] == 5 else "certManager", toks[3], d[3], d[1], d[4], d)
     if len(d) >= 3:
         return "%s timeline: %s at sample %d (diag %s)" % ("listener (real handshakes)" if toks[0] == 5 else "certManager", CLAUSES.get(d[2], "?"), d[1], d)
     return "diag %s" % d
